@@ -44,7 +44,7 @@ fn check(s: &Scenario, order: &[usize]) -> Result<BTreeMap<String, NType>, Verdi
         Ok(r) => r,
         Err(e) => return Err(fail("valid-scenario-rejected", format!("{} ;; {}", e, describe(s)))),
     };
-    check_registry(s, &reg)
+    check_registry(&s.effective(), &reg)
 }
 
 /// `reg` holds exactly the collectors of `s` (however it got there): gather it and judge every sample.
@@ -149,8 +149,9 @@ impl Property for C14 {
         if !allow_mixed {
             rep.excluded_known = true;
         }
+        let se = s.effective();
         let mut by_name: BTreeMap<&str, BTreeSet<NType>> = BTreeMap::new();
-        for c in &s.colls {
+        for c in &se.colls {
             by_name.entry(&c.name).or_default().insert(c.kind.ntype());
         }
         let mixed = by_name.values().any(|t| t.len() >= 2);
@@ -186,6 +187,9 @@ impl Property for C14 {
         // and carry the new kind
         if !s.bundles.is_empty() {
             rep.class("composite-collector(families returned in another order than the descriptors)");
+        }
+        if s.bundles.iter().any(|b| b.nested) {
+            rep.class("composite-collector-gathers-a-registry-of-its-own");
         }
         if !mixed && s.bundles.is_empty() && src.chance(90) {
             let names: Vec<&String> = by_name_owned(&s);
